@@ -174,7 +174,15 @@ def precise_end_rules(ctx: Ctx, rid: str):
     g = cfg_of(prec)
     ffacts = facts_of(prec)
     nloops = 0
-    for lp in [x for x in own_nodes(prec) if isinstance(x, ast.For) and "slotTaskUsage" in norm(x.iter)]:
+    res_p = local_resolver(prec.node)
+
+    def over_records(it):
+        """the loop walks per-task records: written in place, or through local names every definition of which is such a list"""
+        if "slotTaskUsage" in norm(it):
+            return True
+        roots = [x for x in ast.walk(it) if isinstance(x, ast.Name) and x.id not in ("enumerate", "list", "reversed")]
+        return bool(roots) and any(res_p(r) and all("slotTaskUsage" in norm(d) for d in res_p(r)) for r in roots)
+    for lp in [x for x in own_nodes(prec) if isinstance(x, ast.For) and over_records(x.iter)]:
         tgt = lp.target
         if isinstance(tgt, ast.Call):
             continue
@@ -191,8 +199,10 @@ def precise_end_rules(ctx: Ctx, rid: str):
                 continue
             node = g.node_of(st)
             own = node is not None and ffacts.holds(node, lambda t, p: p and _is_own_test(t, tvar)) is not None
-            if own:
+            is_lookup = isinstance(st, ast.Assign) and all(isinstance(t_, ast.Name) for t_ in st.targets)
+            if own and is_lookup:
                 # ... whatever the task did before this slot: the lookup is not conditional on the call's parameters
+                # (a ledger update in a release loop is, rightly, conditional on something being left over)
                 cparams = sorted(a for a in {x.lstrip("~") for x in fd.ctl_atoms(node)} if a.startswith("param:") and a not in ("param:self", "param:cls"))
                 if cparams:
                     ctx.ob(rid, f"{prec.qual}: record read {norm(st)[:50]} is unconditional", (prec, st), False,
